@@ -662,10 +662,47 @@ func mutate(t *rapid.T, enc []byte, tr *ref.Item) ([]byte, string) {
 		ll := rapid.IntRange(1, 8).Draw(t, "ll")
 		base := rapid.SampledFrom([]byte{0xb7, 0xf7}).Draw(t, "base")
 		h := []byte{base + byte(ll)}
-		h = append(h, rapid.SliceOfN(rapid.Byte(), ll, ll).Draw(t, "size")...)
+		if rapid.Bool().Draw(t, "edgeSize") {
+			// declared sizes at the edges of the integer range: wrap-around candidates for "position + size"
+			// arithmetic (2^(8*ll) - k), half range, and just past what is really there
+			var v uint64
+			full := ^uint64(0) >> uint(64-8*ll)
+			switch rapid.IntRange(0, 3).Draw(t, "edgeKind") {
+			case 0:
+				v = full - uint64(rapid.IntRange(0, 20).Draw(t, "below"))
+			case 1:
+				v = full/2 + uint64(rapid.IntRange(0, 2).Draw(t, "half"))
+			case 2:
+				v = uint64(len(enc)) + uint64(rapid.IntRange(0, 3).Draw(t, "past"))
+			default:
+				v = full - uint64(len(enc)) - uint64(rapid.IntRange(0, 12).Draw(t, "belowLen"))
+			}
+			for i := ll - 1; i >= 0; i-- {
+				h = append(h, byte(v>>(8*uint(i))))
+			}
+		} else {
+			h = append(h, rapid.SliceOfN(rapid.Byte(), ll, ll).Draw(t, "size")...)
+		}
 		if rapid.Bool().Draw(t, "nested") {
-			inner := append(h, enc...)
-			return append(ref.RLPEncode(ref.L())[:0], append([]byte{0xc0 + byte(min(len(inner), 55))}, inner...)...), "huge_size_nested"
+			// the hostile header sits inside a well-formed list, optionally after some sibling elements
+			inner := append([]byte{}, h...)
+			inner = append(inner, enc...)
+			var sib []byte
+			for i, n := 0, rapid.IntRange(0, 3).Draw(t, "nSiblings"); i < n; i++ {
+				sib = append(sib, byte(rapid.IntRange(0, 0x7f).Draw(t, "sibling")))
+			}
+			body := append(sib, inner...)
+			if len(body) > 55 {
+				body = body[:55]
+			}
+			out := append([]byte{0xc0 + byte(len(body))}, body...)
+			if rapid.Bool().Draw(t, "doubleNest") {
+				if len(out) > 55 {
+					out = out[:55]
+				}
+				out = append([]byte{0xc0 + byte(len(out))}, out...)
+			}
+			return out, "huge_size_nested"
 		}
 		return append(h, enc...), "huge_size"
 	case 8: // replace one element of a list by 0x80 / 0xc0 / 0x00
@@ -845,7 +882,9 @@ func TestRegressionFixedFindings(t *testing.T) {
 func FuzzDecode(f *testing.F) {
 	for _, h := range [][]byte{{}, {0x00}, {0x80}, {0xc0}, {0x81, 0x00}, {0xc1, 0x00}, {0xc2, 0x80, 0xc0}, {0xc2, 0xc0, 0x80},
 		{0xb8, 0x38}, {0xbf, 0xff, 0xff, 0xff, 0xff, 0xff, 0xff, 0xff, 0xff}, {0xff, 0x7f, 0xff, 0xff, 0xff, 0xff, 0xff, 0xff, 0xff},
-		{0xf8, 0x00}, {0xb9, 0x00, 0x38}, {0xc3, 0x82, 0x00, 0x01}, {0xc8, 0x83, 0x01, 0x02, 0x03, 0xc3, 0x01, 0x80, 0xc0}} {
+		{0xf8, 0x00}, {0xb9, 0x00, 0x38},
+		{0xc9, 0xbf, 0xff, 0xff, 0xff, 0xff, 0xff, 0xff, 0xff, 0xff}, {0xca, 0x01, 0xbf, 0xff, 0xff, 0xff, 0xff, 0xff, 0xff, 0xff, 0xfe},
+		{0xc9, 0xff, 0xff, 0xff, 0xff, 0xff, 0xff, 0xff, 0xff, 0xf7}, {0xc5, 0xbb, 0xff, 0xff, 0xff, 0xff}, {0xc3, 0xb9, 0xff, 0xff}, {0xc3, 0x82, 0x00, 0x01}, {0xc8, 0x83, 0x01, 0x02, 0x03, 0xc3, 0x01, 0x80, 0xc0}} {
 		f.Add(h)
 	}
 	f.Add(ref.RLPEncode(ref.L(ref.U(1), ref.B(make([]byte, 20)), ref.L(ref.U(7), ref.B([]byte("abc")), ref.U(1<<40)), ref.B(nil), ref.U(3))))
